@@ -159,8 +159,14 @@ class World:
         self.d.register(self.host, "host")
         self.gen = 0
         self.genmap = {}
+        self.persist = {}
 
     def close(self):
+        for p in self.persist.values():
+            try:
+                p._pyroRelease()
+            except Exception:
+                pass
         self.targets.RegHost.pool = {}
         for lab in ("o1", "o2"):
             o = self.pool.get(lab)
@@ -237,6 +243,16 @@ class World:
         """the 'return-object / uriFor / proxyFor' steps of a history: every pool object is returned from a remote method once and asked for
         its uri and proxy; the answers are not judged here (they are in the state that is observed), but whatever the daemon remembers
         from doing so is now part of the history"""
+        # long-lived client connections, one per id, that call again after every step (whatever the daemon remembers per connection
+        # must follow the registry)
+        for oid in ("a", "b"):
+            p = self.persist.get(oid)
+            if p is None:
+                p = self.persist[oid] = self.client.Proxy("PYRO:%s@h:1" % oid)
+            try:
+                p._pyroInvoke("who", (), {})
+            except Exception:
+                pass
         hostp = self.client.Proxy("PYRO:host@h:1")
         try:
             for lab in ("o1", "o2"):
@@ -331,6 +347,20 @@ def observe(world, model, errors, V, hist, st):
                 V("unregistered-id-still-served", "id %s is not registered in the model but a call was answered by %r" % (oid, r[1]), hist)
             elif r[0] == "exc":
                 V("unregistered-id-wrong-error|%s" % r[1].split(":")[0], "id %s: %r" % (oid, r), hist)
+    # the same through the long-lived connections of the 'touch' replays
+    for oid, p in sorted(world.persist.items()):
+        st.points += 1
+        try:
+            r = ("ok", p._pyroInvoke("who", (), {}))
+        except errors.CommunicationError as x:
+            r = ("unknown", str(x)[:80])
+        except Exception as x:
+            r = ("exc", type(x).__name__ + ":" + str(x)[:60])
+        if oid in model.reg:
+            if r != ("ok", model.reg[oid][0]):
+                V("call-reaches-wrong-target|long-lived-connection|%s" % ("other-object" if r[0] == "ok" else r[0]), "call to id %s over a connection that has been open all along should reach %s, got %r" % (oid, model.reg[oid][0], r), hist)
+        elif r[0] == "ok":
+            V("unregistered-id-still-served|long-lived-connection", "id %s is not registered but a call over a long-lived connection was answered by %r" % (oid, r[1]), hist)
     # uriFor / return-object for every pool object
     hostp = client.Proxy("PYRO:host@h:1")
     try:
